@@ -43,4 +43,40 @@ theorem tasksSrc_eq (sc : Scene R) (own : Safety R) (skip : List Nat) :
   unfold SrcColl.tasksSrc tasks
   simp only [ite_ite_nil, flatMap_ite_single, flatMap_guard_single, Bool.and_assoc]
 
+/-! ### the public methods of `RobotBody` and `process_collision_tasks` -/
+
+theorem processTasksSrc_eq (sc : Scene R) (safety : Safety R) (om : Option CheckMode) (ts : List (Nat × Nat))
+    (choice : List (Nat × Nat) → Option (Nat × Nat)) :
+    SrcColl.processTasksSrc sc safety om ts choice = processTasks sc safety (om.getD safety.mode) ts choice := by
+  unfold SrcColl.processTasksSrc processTasks
+  cases om.getD safety.mode <;> rfl
+
+theorem detectCollisionsSrc_eq (sc : Scene R) (own safety : Safety R) (om : Option CheckMode)
+    (choice : List (Nat × Nat) → Option (Nat × Nat)) :
+    SrcColl.detectCollisionsSrc sc own safety om choice = detect sc own safety om [] choice := by
+  unfold SrcColl.detectCollisionsSrc detect
+  rw [processTasksSrc_eq, tasksSrc_eq]
+
+theorem collisionDetailsSrc_eq (sc : Scene R) (own other : Safety R) (choice : List (Nat × Nat) → Option (Nat × Nat)) :
+    SrcColl.collisionDetailsSrc sc own other choice = collisionDetails sc own choice := by
+  unfold SrcColl.collisionDetailsSrc collisionDetails; exact detectCollisionsSrc_eq ..
+
+theorem nearSrc_eq (sc : Scene R) (own other : Safety R) (choice : List (Nat × Nat) → Option (Nat × Nat)) :
+    SrcColl.nearSrc sc own other choice = near sc own other choice := by
+  unfold SrcColl.nearSrc near; exact detectCollisionsSrc_eq ..
+
+theorem collidesSrc_eq (sc : Scene R) (own : Safety R) (choice : List (Nat × Nat) → Option (Nat × Nat)) :
+    SrcColl.collidesSrc sc own choice = collides sc own choice := by
+  unfold SrcColl.collidesSrc collides detect
+  rw [processTasksSrc_eq, tasksSrc_eq]
+
+theorem nonCollidingOffsetsSrc_eq (sceneAt : J6 R → Scene R) (unchanged : J6 R → Nat → Bool) (own : Safety R)
+    (cons : Option (Constraints R)) (initial f t : J6 R) (choice : List (Nat × Nat) → Option (Nat × Nat)) :
+    SrcColl.nonCollidingOffsetsSrc sceneAt unchanged own cons initial f t choice =
+      nonCollidingOffsets sceneAt unchanged own cons initial f t choice := by
+  unfold SrcColl.nonCollidingOffsetsSrc nonCollidingOffsets offsetCandidates skipOf detect
+  simp only [processTasksSrc_eq, tasksSrc_eq, List.filterMap_flatMap, List.map_cons, List.map_nil]
+  congr 1
+  funext k
+  cases cons <;> simp [List.filterMap_cons]
 end Opw
